@@ -57,6 +57,14 @@ BEHAVIOURS = {
     "c-unsigned": "{ unsigned w = RsV; RddV = w; RxV = w >> 4; }",
     "c-cast-unsigned-int": "{ RddV = (unsigned int)RsV; RxV = (int)RtV; }",
     "c-int64": "{ int64_t q = RsV; uint64_t p = RtV; RddV = q + p; }",
+    # ... and the same names with a qualifier (the qualifier is or-ed into the type object of the declaration), and
+    # declared first, assigned later (the assignment looks at the qualifier of the declared type)
+    "c-const-unsigned": "{ const unsigned b = 5; RdV = b; }",
+    "c-const-unsigned-int": "{ const unsigned int b = RsV; RdV = b + 1; }",
+    "c-const-int": "{ const int n = 5; RdV = n + RsV; }",
+    "c-unsigned-assign": "{ unsigned a; a = 7; RdV = (a >> 1); }",
+    "c-unsigned-int-assign": "{ unsigned int a; a = RsV; RdV = a; }",
+    "c-int-assign": "{ int a; a = RsV; a += 1; RdV = a; }",
     # typed constants: folds that change the type of a constant, and later uses of constants with the same suffix
     "k-neg-u": "{ RdV = -1U; }",
     "k-neg-ull-fail": "{ RddV = -3ULL; goto out; }",
